@@ -25,9 +25,10 @@ import numpy as np
 from ..refs import geomref as g
 
 LEVEL = "exploration"
-RULE = ("cases = one generated input of one of five families (los | fov-conic | fov-rect | sun | limb | mask | mask-e2e). "
+RULE = ("cases = one generated input of one of seven families (los | fov-conic | fov-rect | sun | limb | mask | mask-e2e). "
         "los: point pairs from the sphere surface to 10 Re built from a chosen closest-approach point at Re+delta "
-        "(delta = +-1e-12..1e2 km), plus antipodal, radial, coincident, surface and below-sphere (ellipsoid site) endpoints; "
+        "(delta = +-1e-12..1e2 km, segment lengths 1e-4 km..20 Re), plus antipodal, radial, (near-)coincident, surface and below-sphere "
+        "(ellipsoid site) endpoints; "
         "fov: boresight on a grid of azimuths containing the 0/360 seam (0, +-1e-12 .. +-1 deg) and elevations up to the exact "
         "zenith, full sizes 0.1..179 deg, target at a multiple k of the half angle (k = 0, 1+-1e-8..1+-0.1, 2, random), common "
         "rotation chosen to put the boresight on / the pair across / away from the seam; sun: satellites 1 km..9 Re above the "
